@@ -2,6 +2,7 @@ import FloVerif.Driver.Util
 import FloVerif.Driver.C05
 import FloVerif.Gen.Offset
 import FloVerif.Model.Offset
+import FloVerif.Model.FitKernel
 /-!
 Correspondence for C10: the generated definitions of `Gen/Offset.lean` (normal.rs, characteristics.rs, offset_lms.rs, offset.rs,
 offset_scaling.rs) and the fuel knot of `Model/Offset.lean`, run at `Float`, against the implementation BIT FOR BIT
@@ -64,6 +65,21 @@ def cmpEnds (name : String) (model : Option (List (V2 Float × V2 Float))) (outs
           out (name ++ ".last_point") (allBiteq (v2l b) ((impl.drop 2).take 2)) s!"model {showL (v2l b)} impl {showL ((impl.drop 2).take 2)}"]
   | _ => [out name (m == 0) s!"model returns no chain, implementation {m} curves"]
 
+/-- the GENERATED fitter as `offset_lms_sampling` calls it (`C10Fit.genFitter`) -/
+def genFit (ps : List (V2 Float)) (st et : V2 Float) (e : Float) : List (Cubic Float) :=
+  Model.FitKernel.fitCubicGen (ps.length + 1) ps st et e
+
+/-- every control point of every curve of the chain (tail of the output: `#m` then 8 numbers per curve) -/
+def cmpAll (name : String) (model : Option (List (Cubic Float))) (tail : List String) : List Out :=
+  let m := parseNat (tail.getD 0 "0")
+  let impl := ((tail.drop 1).take (8 * m)).map fl
+  match model with
+  | some cs =>
+    let flat := cs.flatMap cubl
+    [out (name ++ ".curve_count") (cs.length == m) s!"model {cs.length} curves, implementation {m}",
+     out (name ++ ".all_control_points") (allBiteq flat impl) s!"model {showL (flat.take 8)}… impl {showL (impl.take 8)}…"]
+  | none => [out (name ++ ".curve_count") (m == 0) s!"model returns no chain, implementation {m} curves"]
+
 def handle (op : String) (ins outs : List String) : List Out :=
   match op with
   | "normal" =>
@@ -107,6 +123,7 @@ def handle (op : String) (ins outs : List String) : List Out :=
      out "offset_lms_sampling.sample_parameters" (allBiteq (modelTs.getD []) implTs)
        s!"subdivisions={n}: model {(modelTs.getD []).length} parameters {showL ((modelTs.getD []).take 6)}… impl {k} parameters {showL (implTs.take 6)}…"]
     ++ cmpEnds "offset_lms_sampling" chain (outs.drop (2 + k))
+    ++ cmpAll "offset_lms_sampling" (offset_lms_sampling feat genFit w.1 w.2.1 w.2.2.1 w.2.2.2 (fun t => (d1 - d0) * t + d0) (fun _ => toff) n 0.1) (outs.drop (2 + k + 5))
   | "offset" =>
     -- ins: w(8) d0 d1 #hint t1 t2; outs: #m [first(2) last(2)]
     let iv := (ins.take 8).map fl
@@ -115,6 +132,7 @@ def handle (op : String) (ins outs : List String) : List Out :=
     let hint := hintOf (ins.getD 10 "") (fl (ins.getD 11 "0")) (fl (ins.getD 12 "0"))
     let chain := offset (featuresOf w hint) endsFitter w.1 w.2.1 w.2.2.1 w.2.2.2 d0 d1
     cmpEnds "offset" (some chain) outs
+    ++ cmpAll "offset" (some (offset (featuresOf w hint) genFit w.1 w.2.1 w.2.2.1 w.2.2.2 d0 d1)) (outs.drop 5)
   | "scaling" =>
     -- ins: w(8) d0 d1 #hint t1 t2; outs: #m curves(8m)
     let iv := (ins.take 8).map fl
